@@ -44,6 +44,7 @@ def cases(tier):
         for a in range(ns):
             for b in range(ns):
                 L.append(fsm_case('C01', fx, 'req2_d%d_d%d' % (a, b), ['P_C01', 'ENTRY=3', 'NREQ=2', 'EXT_KINDS=0x1e', 'DEST0=%d' % a, 'DEST1=%d' % b, 'CB_BUDGET=0', 'NO_CANCEL'], timeout=900, witness=False))
+    mark_cover(L, ['c01.f5.imm1', 'c01.f5.update'])
     return L
 
 def run(tier, seed):
